@@ -9,13 +9,17 @@ Modelled (control flow mirrored; loops -> accumulating recursion, mutation -> re
   one line `(resid, resname, atomname)` per atom (`writeLoop`);
 * the box decision of `gen_coords.py:240-255` followed by `BuildSystem.__init__` (`chooseBox`);
   `_compute_box_size` (`massOf`, `edgeFromDensity`); `(·)**(1/3.)` and `round(·, 5)` are parameters;
+* the default start grid of `BuildSystem.__init__` (`np.mgrid[0:box:spacing]` per axis, reshaped, then
+  filtered to the points strictly below the box length: `startGrid`);
 * `_compose_system`: molecule after molecule, a molecule whose residues all carry a position is
   skipped, otherwise `_handle_random_walk` is repeated until it succeeds (`compose`, the outcomes come
   from an arbitrary oracle); `Backmap._place_init_coords`: every atom of a residue flagged `backmap`
   receives `cg + vector * fudge` (`backmapMol`).
 
-Specification side: `specListing` (the `[ molecules ]` section expanded in order), `specBox`.
+Specification side: `specListing` (the `[ molecules ]` section expanded in order), `specBox`, `specGrid`.
 -/
+import PolyplyVerif.Model.Walk
+
 namespace PolyplyVerif.Coords
 
 /-! ### listing -/
@@ -117,6 +121,51 @@ def specBox (cli input : Option Box) (edge : Option Rat) : Option Box :=
     | some c => some c
     | none => edge.map fun e => (e, e, e)
 
+/-! ### the default start grid of `BuildSystem.__init__`
+
+    self.box_grid = np.mgrid[0:box[0]:spacing, 0:box[1]:spacing, 0:box[2]:spacing].reshape(3, -1).T
+    self.box_grid = self.box_grid[np.all(self.box_grid < self.box, axis=1)]
+
+`np.mgrid[0:b:s]` with a real step (`numpy.lib.index_tricks.nd_grid.__getitem__`) has
+`ceil((b - 0) / s)` points per axis, the `i`-th being `i * s + 0`; `.reshape(3, -1).T` lists the points
+with the x index slowest and the z index fastest.  The second statement (repair 28d4aca) keeps the points
+that are strictly below the box length in every dimension.  In exact arithmetic the filter drops
+nothing (`Proofs.Coords.startGrid_eq_product`): it exists for the float case, where the quotient and the
+products are rounded; `gridFilter` is therefore also stated over ARBITRARY axis lists. -/
+
+/-- `math.ceil` -/
+def ceilInt (q : Rat) : Int := -((-q).floor)
+
+/-- number of points of `np.mgrid[0:b:s]` along one axis: `int(math.ceil((b - 0) / s))` (a negative
+value makes numpy raise; the model has no points then) -/
+def mgridCount (b s : Rat) : Nat := (ceilInt (b / s)).toNat
+
+/-- the points of `np.mgrid[0:b:s]` along one axis: `i * s + 0` -/
+def mgridAxis (b s : Rat) : List Rat := (List.range (mgridCount b s)).map fun (i : Nat) => (i : Rat) * s
+
+/-- `np.mgrid[xs, ys, zs].reshape(3, -1).T`: x slowest, z fastest -/
+def product3 (xs ys zs : List Rat) : List Box :=
+  xs.flatMap fun x => ys.flatMap fun y => zs.map fun z => (x, y, z)
+
+/-- one row of `np.all(self.box_grid < self.box, axis=1)` -/
+def belowBox (box p : Box) : Bool := decide (p.1 < box.1) && decide (p.2.1 < box.2.1) && decide (p.2.2 < box.2.2)
+
+/-- `self.box_grid[np.all(self.box_grid < self.box, axis=1)]` -/
+def gridFilter (box : Box) (pts : List Box) : List Box := pts.filter (belowBox box)
+
+/-- the default `box_grid` of `BuildSystem.__init__` -/
+def startGrid (box : Box) (spacing : Rat) : List Box :=
+  gridFilter box (product3 (mgridAxis box.1 spacing) (mgridAxis box.2.1 spacing) (mgridAxis box.2.2 spacing))
+
+/-- specification: a start point lies inside the periodic box, `0 ≤ p < box` in every dimension -/
+def insideBox (box p : Box) : Bool :=
+  decide (0 ≤ p.1) && decide (p.1 < box.1) && decide (0 ≤ p.2.1) && decide (p.2.1 < box.2.1) &&
+  decide (0 ≤ p.2.2) && decide (p.2.2 < box.2.2)
+
+/-- specification of the whole grid as the property needs it: not empty (`np.random.randint(len(grid))`
+is defined) and every point a legal start position -/
+def specGrid (box : Box) (grid : List Box) : Bool := !grid.isEmpty && grid.all (insideBox box)
+
 /-! ### every atom receives a position -/
 
 /-- a residue of a meta molecule: flags, residue position, atom positions (`none` = missing / inf) -/
@@ -166,5 +215,14 @@ def Mol.atomsPlaced {P : Type} (m : Mol P) : Bool := m.all fun r => r.atoms.all 
 /-- what `add_positions_from_file` guarantees on entry: a residue that is not to be backmapped has all its
 atom positions -/
 def Mol.inputOk {P : Type} (m : Mol P) : Bool := m.all fun r => r.backmap || r.atoms.all Option.isSome
+
+/-! ### the placement state machine of C17 feeding `Backmap` -/
+
+/-- `NonBondEngine.update_positions_in_molecules` at the end of `_compose_system`, seen from
+`Backmap`: residue `n` of the molecule with index `j` receives the engine's position (`none` = the row is
+still `inf`), flags and atom positions stay what they were on entry (`rs n`); an ignored molecule is not
+part of the engine and keeps its `position` attributes. -/
+def writeBack (eng : Walk.Engine) (j : Nat) (m : Walk.Mol) (rs : Walk.Node → Res Nat) : Mol Nat :=
+  m.nodes.map fun n => if m.ignored then rs n else { rs n with pos := eng j n }
 
 end PolyplyVerif.Coords
